@@ -47,7 +47,7 @@ F_DistMatrix(T, V, metric, res) ==
 
 \* palette scale of each metric: every branch weight is a multiple of u units; 1.0 = d of them
 Scale(metric) ==
-  CASE metric = "brlen" -> [u |-> 65536, d |-> 16]
+  CASE metric = "brlen" -> [u |-> 32768, d |-> 32]
     [] metric = "boot"  -> [u |-> 16384, d |-> 64]
     [] OTHER            -> [u |-> 1048576, d |-> 1]
 
@@ -140,7 +140,8 @@ F_CompareWeighted(Vr, Vc, tips, res) ==
 
 \* SS[i] = splits of tree i, SL[i] = split -> length of tree i
 CountIn(SS, s)   == Cardinality({i \in DOMAIN SS : s \in SS[i]})
-SumLen16(SS, SL, s) == SumOver(DOMAIN SS, LAMBDA i : IF s \in SS[i] THEN SL[i][s] \div 65536 ELSE 0)
+\* (in units of 1/32: the lengths of the generated trees are multiples of 1/16, the negative ones odd multiples of 1/32)
+SumLen16(SS, SL, s) == SumOver(DOMAIN SS, LAMBDA i : IF s \in SS[i] THEN SL[i][s] \div 32768 ELSE 0)
 Frequent(SS, num, den) ==
   LET n == Len(SS)
   IN  {s \in UNION {SS[i] : i \in 1..n} : NonTrivial(s) /\ (CountIn(SS, s) * den > num * n \/ CountIn(SS, s) = n)}
@@ -158,7 +159,7 @@ F_Consensus(Vs, num, den, W, res) ==
                 \A x \in NonRoot(W) :
                    LET s == SplitOf(W, x)
                        c == CountIn(SS, s)
-                   IN  (c > 0 /\ Cardinality(Carriers(W, s)) = 1) => QNear(res.len4[W.br[x].id], SumLen16(SS, SL, s), 16 * c))
+                   IN  (c > 0 /\ Cardinality(Carriers(W, s)) = 1) => QNear(res.len4[W.br[x].id], SumLen16(SS, SL, s), 32 * c))
       \cup Fail("ConsensusTipsWithoutSupport", \A x \in W.tips : res.sup4[W.br[x].id] = NIL4)
 
 -----------------------------------------------------------------------------
